@@ -3,4 +3,5 @@ EXTENDS Resources
 \* slot representations: optional variable, entry of a local dictionary, element of a local array
 MCSlotRep2 == (1 :> "var") @@ (2 :> "dict")
 MCSlotRep3 == (1 :> "var") @@ (2 :> "dict") @@ (3 :> "arr")
+MCSlotRep1 == (1 :> "var")
 ====
